@@ -176,7 +176,10 @@ def replayOne (r : WalRec) (s : Store) : Store × Option String × Bool :=
           ({ s1 with mem := assocSet s1.mem l.off ⟨.leaf l', true⟩ }, none, false)
     else
       match node with
-      | .internal _ => (s1, some "panic:delete on internal node", false)
+      | .internal n =>
+        -- `findCellOffsetByKey` runs over the separators: a miss is the error, a hit indexes the (empty) leaf cells
+        if n.cells.any fun c => c.key == r.cell then (s1, some "panic:delete on internal node", false)
+        else (s1, some "replay delete: cell not found", false)
       | .leaf l =>
         if !(l.cells.any fun c => c.key == r.cell) then (s1, some "replay delete: cell not found", false)
         else
